@@ -132,9 +132,16 @@ class Report:
         from .build import vanished_anchors
         gone = vanished_anchors(self.prop)
         for g in gone:
+            if g.startswith("field "):
+                self.broken_reasons.append(("anchors", "%s, which the rules of this property name, no longer exists with that name and layout (renamed together with a layout change, "
+                                                       "moved or removed): the rules that rest on it cannot be evaluated" % g))
+                continue
             self.broken_reasons.append(("anchors", "function %s, which the rules of this property name, no longer exists in the tree (renamed, merged into its caller or removed): "
                                                    "the rules that rest on it cannot be evaluated" % g))
         from . import build as _b
+        if getattr(_b, "RENAMED_FIELDS", None):
+            cov["renamed_fields"] = {"%s.%s" % k: v for k, v in _b.RENAMED_FIELDS.items()}
+            print("  note: struct fields analysed under their reference names (layout unchanged): %s" % ", ".join("%s.%s (now %s)" % (k[0], k[1], v) for k, v in sorted(_b.RENAMED_FIELDS.items())))
         if getattr(_b, "ALIASES", None):
             cov["renamed_functions"] = {v: k for k, v in _b.ALIASES.items()}
             print("  note: analysed under their reference names (recognised as pure renames): %s" % ", ".join("%s (now %s)" % (v, k) for k, v in sorted(_b.ALIASES.items())))
